@@ -181,8 +181,13 @@ class ABNF:
         if self.opcode not in ABNF.OPCODES:
             raise WebSocketProtocolException("Invalid opcode %r", self.opcode)
 
-        if self.opcode == ABNF.OPCODE_PING and not self.fin:
-            raise WebSocketProtocolException("Invalid ping frame.")
+        if self.opcode in (ABNF.OPCODE_CLOSE, ABNF.OPCODE_PING, ABNF.OPCODE_PONG):
+            # RFC 6455 section 5.5: control frames must not be fragmented
+            # and must have a payload length of 125 bytes or less.
+            if not self.fin:
+                raise WebSocketProtocolException("Invalid control frame (fragmented).")
+            if len(self.data) > 125:
+                raise WebSocketProtocolException("Invalid control frame (too long).")
 
         if self.opcode == ABNF.OPCODE_CLOSE:
             l = len(self.data)
